@@ -104,8 +104,11 @@ class Ctx:
         if not ev["coverage"]["samples"]:
             ev["coverage"]["samples"] = ["(no case was run: the check stopped early)"]
         if not getattr(self, "replaying", False):
-            os.makedirs(os.path.join(ROOT, "evidence"), exist_ok=True)
-            with open(os.path.join(ROOT, "evidence", self.pid + ".json"), "w") as f:
+            # evidence/ describes runs against /repo itself; a run pointed at another tree (VERIF_REPO=<scratch worktree>,
+            # used to try the checks on seeded changes) leaves its record under .build/ instead
+            evdir = os.path.join(ROOT, "evidence") if os.path.realpath(REPO) == "/repo" else os.path.join(ROOT, ".build", "evidence-other-tree")
+            os.makedirs(evdir, exist_ok=True)
+            with open(os.path.join(evdir, self.pid + ".json"), "w") as f:
                 json.dump(ev, f, indent=1, default=str)
         for key, what, path, no_input in self.violations:
             print("VIOLATION property=%s replay=%s%s" % (self.pid, path, " no-failing-input-found" if no_input else ""))
